@@ -54,4 +54,6 @@ package blake2b
 //@ ensures implies(result == nil, forall(i, 0, 128, d.block[i] == b[84+i]))
 //@ ensures implies(result == nil && 0 <= old(d.keyLen) && old(d.keyLen) <= 64, dinv(d))
 //@ ensures implies(len(b) != 213, result != nil)
+// accepts exactly the well-formed states (in particular every state MarshalBinary produces)
+//@ ensures iff(result == nil, len(b) == 213 && b[0] == 'b' && b[1] == '2' && b[2] == 'b' && 1 <= b[83] && b[83] <= 64 && b[212] <= 128)
 //@ canary ensures result == nil
